@@ -117,7 +117,9 @@ Proof.
   match goal with E : deep_copy _ _ _ _ _ = Val _ |- _ =>
     destruct (deep_copy_garb _ _ _ _ _ _ _ (garb_refl w) E) as (G1 & Hfresh); clear E end.
   match goal with c : id |- _ => specialize (Hfresh c eq_refl) end.
-  wer H; [|assumption].
+  (* read-only checks on the copy (fix f5f3361) and the path of the destination: a failure leaves the garbage world *)
+  repeat first [ wer H; [|assumption]
+               | match type of H with (if ?b then _ else _) _ = _ => destruct b; [winvs; assumption|] end ].
   wer H; [|exfalso; noer].
   match goal with E : modify_node _ _ _ = Val _ |- _ => apply modify_node_inv in E as (n1 & _ & _ & ->) end.
   match type of H with wbind _ _ ?w2 = _ => assert (G2 : garb w w2) by (apply garb_upd_fresh; assumption) end.
